@@ -97,22 +97,9 @@ def make(case):
                 nxt = [p["to_junction"] for p in spec["elements"] if p["kind"] == "pipe" and p["from_junction"] == e["to_junction"]]
                 if nxt:
                     e["controlled_junction"] = nxt[0]
-        # parallel stand-by machines: an out-of-service pump / compressor of another type or ratio, created before or after
-        # the running one (row order of active and inactive elements differs from case to case)
-        els = []
-        for e in spec["elements"]:
-            twin = None
-            if e["kind"] == "pump" and rng.random() < 0.6:
-                twin = dict(e, name=e["name"] + "_standby", std_type=str(rng.choice([t for t in netgen.PUMP_TYPES if t != e["std_type"]])), in_service=False)
-            elif e["kind"] == "compressor" and rng.random() < 0.6:
-                twin = dict(e, name=e["name"] + "_standby", pressure_ratio=e["pressure_ratio"] + 0.3, in_service=False)
-            if twin is not None and rng.random() < 0.6:
-                els += [twin, e]
-            elif twin is not None:
-                els += [e, twin]
-            else:
-                els.append(e)
-        spec["elements"] = els
+        # parallel stand-by machines: an out-of-service pump / compressor of another type or ratio (and duty / stand-by pressure
+        # controllers on one controlled junction), created before or after the running one
+        netgen.add_standby(spec, rng, controllers=True)
         netgen.relabel(spec, rng, str(rng.choice(["contiguous", "shuffled", "gaps"])))
         # an out-of-service extra grid on the first grid's junction
         if rng.random() < 0.3:
